@@ -138,7 +138,7 @@ DRIVERS = [
 def cases_random(tier, seed):
     from drivers.gen_models import gen_model
     rng = random.Random(seed * 7 + 13)
-    n = 40 if tier == 'quick' else 1500
+    n = 40 if tier == 'quick' else 10000
     for i in range(n):
         ms = seed * 100000 + i
         m = gen_model(ms)
@@ -196,4 +196,4 @@ def oracle_random(c):
 
 DRIVERS.append(Driver('C13/B4.random', cases_random, oracle_random, nchunks=8,
                       rule='seeded random acyclic models (1-3 sheets incl. a quoted one, constants of every type with holes, 3-8 formulas over cells / ranges / a cell name / a range name, $ references) x 3 random focus lists x random input changes (by address or through the name): closure against the generator\'s own dependency table, equal values of every focused item, original unchanged',
-                      bound='40 (quick) / 1500 (thorough) models'))
+                      bound='40 (quick) / 10000 (thorough) models'))
